@@ -21,6 +21,7 @@ Inductive code :=
 | KRestore (n : nat)                   (* position, tokenIndex = positionN, tokenIndexN *)
 | KSaveP (n : nat)                     (* positionN := position *)
 | KUseP (n : nat)                      (* add(rule, positionN) / begin := positionN *)
+| KMemo (n : nat)                      (* memoize(rule, positionN, tokenIndexN, matched) *)
 | KBrk                                 (* break *)
 | KBlock (b : list code)               (* { ... } *)
 | KSwitch (cases : list (list code)) (dflt : list code).
@@ -136,8 +137,8 @@ Fixpoint emit (n : nat) (e : expr) (ko : nat) (pd mk : bool) (l : nat) {struct n
 Definition rule_emit (n : nat) (r : nat) (ko : nat) : list code * nat :=
   let '(c, l1, _) := ipush_emit (emit n) r ko false false (S ko) in
   ((if ast then [KSt] else []) ++ (if (ast || used ko)%bool then [KSave ko] else []) ++ c ++
-   (if ast then [KSt] else []) ++ [KSt] ++
-   (if used ko then [KLbl ko] ++ (if ast then [KSt] else []) ++ [KRestore ko; KSt] else []), l1).
+   (if ast then [KMemo ko] else []) ++ [KSt] ++
+   (if used ko then [KLbl ko] ++ (if ast then [KMemo ko] else []) ++ [KRestore ko; KSt] else []), l1).
 
 End Emit.
 
@@ -200,12 +201,12 @@ End Passes.
 
 (** flat form, as read back from the generated file; runs of plain statements are one [KSt] *)
 Inductive tok := TSt | TLbl (n : nat) | TJmp (n : nat) | TCJmp (n : nat) | TSave (n : nat) | TRestore (n : nat)
-  | TSaveP (n : nat) | TUseP (n : nat) | TBrk | TOpen | TClose | TSw | TCase | TDflt | TEndSw.
+  | TSaveP (n : nat) | TUseP (n : nat) | TMemo (n : nat) | TBrk | TOpen | TClose | TSw | TCase | TDflt | TEndSw.
 
 Fixpoint flat1 (x : code) : list tok :=
   match x with
   | KSt => [TSt] | KLbl n => [TLbl n] | KJmp n => [TJmp n] | KCJmp n => [TCJmp n]
-  | KSave n => [TSave n] | KRestore n => [TRestore n] | KSaveP n => [TSaveP n] | KUseP n => [TUseP n]
+  | KSave n => [TSave n] | KRestore n => [TRestore n] | KSaveP n => [TSaveP n] | KUseP n => [TUseP n] | KMemo n => [TMemo n]
   | KBrk => [TBrk]
   | KBlock b => TOpen :: flat_map flat1 b ++ [TClose]
   | KSwitch cs d => TSw :: flat_map (fun k => TCase :: flat_map flat1 k) cs ++ TDflt :: flat_map flat1 d ++ [TEndSw]
